@@ -161,6 +161,8 @@ type Engine struct {
 	mainRetrying bool
 	inRunCoros   bool
 	lastFired    int
+	SwitchHook   string // harness function called with the root goroutine index (-1: harness) whenever another party gets to run
+	eqSt         *State // state for content comparison of byte-backed strings (map keys)
 }
 
 func NewEngine(prog *ssa.Program, pkg *ssa.Package, opts Opts) *Engine {
